@@ -134,12 +134,18 @@ def run(ctx):
         cls.append("arbitrary elements")
         expect.append(False)
     impl, mod = diff(ctx, lines, "CheckMultiProof decision", cls, impl_shards=4)
-    for l, o, c, acc in zip(lines, impl, cls, expect):
+    for l, o, om, c, acc in zip(lines, impl, mod, cls, expect):
         ok = o.startswith("true")
         if acc and not ok:
             ctx.violation("valid statement (%s) rejected: %s" % (c, o[:30]), {"case": l, "impl": o, "class": c})
         if (not acc) and ok:
-            ctx.violation("perturbed statement (%s) ACCEPTED" % c, {"case": l, "impl": o, "class": c})
+            if om.startswith("true"):
+                # the perturbation did not make the statement false (degenerate statements: the zero polynomial
+                # opens to 0 at every point, and its all-identity proof verifies under every label); the
+                # reference verifier accepts as well - counted, not a finding
+                ctx.dist["perturbation left the statement valid (accepted by the reference verifier too)"] += 1
+            else:
+                ctx.violation("perturbed statement (%s) ACCEPTED" % c, {"case": l, "impl": o, "class": c})
     # the decision is a function of the call's inputs: honest and perturbed statements right after calls that
     # fail in different places (inside the IPA check, in the shape checks), all in ONE process, in this order
     hl, hc = [], []
@@ -156,6 +162,7 @@ def run(ctx):
                 ctx.violation("valid statement rejected after a failing call: %s" % o[:30], {"case": l, "impl": o, "class": c, "lines": hl})
         elif c.startswith("history:y_i") and o.startswith("true"):
             ctx.violation("false statement ACCEPTED after a failing call", {"case": l, "impl": o, "class": c, "lines": hl})
+    # (a wrong VALUE y_i is never a valid claim, whatever the polynomial: that predicate stays unconditional)
     # shapes
     sl, sc = [], []
     for (nl, nr, nc, ny, nz) in [(8, 8, 1, 1, 1), (0, 0, 1, 1, 1), (7, 7, 1, 1, 1), (9, 9, 1, 1, 1), (8, 7, 1, 1, 1), (7, 8, 1, 1, 1),
